@@ -154,8 +154,8 @@ CHECKS['C10'] = dict(level=MC, ref='4 C10',
          'measured verdicts: norm and energy conserved (real time, time-independent Hermitian H), same charge sector, canonical form, unit norm with normalize, and on a maximal manifold equality with '
          'expm(-u t H) psi0 for real / imaginary / complex u, 2nd and 4th order, and for H(t) = (1+t) H0 (midpoint rule exact).',
     note='norm / energy / distance to scipy.linalg.expm reference are floating-point observations (1e-7..1e-8). "Maximal manifold" is decided by an independent path count (every admissible bond '
-         'sector has D_q >= min(L_q, R_q)); for 1site / 12site exactness is claimed only if every bond is one-sided (L_q <= R_q for all q, or >= for all q): otherwise projector splitting keeps an '
-         'O(dt^3) error although the manifold is the whole sector (mathematics of the method, see DESIGN.md). convergence ORDER for non-commuting time-dependent generators is not measured. runs that '
+         'sector has D_q >= min(L_q, R_q)); exactness is claimed (all three methods) only if every bond is one-sided (L_q <= R_q for all q, or >= for all q): otherwise projector splitting keeps an '
+         'O(dt^3) local error although the manifold is the whole sector (mathematics of the method; measured for 2site at seed 3: error 3.8e-6, 1.9e-6, 5.9e-7, 1.6e-7 for dt = 0.1 .. 0.0125; see DESIGN.md). convergence ORDER for non-commuting time-dependent generators is not measured. runs that '
          'take > 45 s (expmv caps ncv by the number of STORED elements, D=1 symmetric states make thousands of tiny steps) are skipped and counted. bounded: N=2..5, 5 families, 56/800 runs',
     technique='TLA+ cache-coherence protocol (EnvCoherence) + TDVP sweep schedules incl. all 12site decision sequences (Sweeps, SweepsMC) + TLC + trace validation of recorded tdvp_ runs')
 CHECKS['C11'] = dict(level=MC, ref='4 C11',
